@@ -194,7 +194,7 @@ pub struct LayoutDims {
     pub comments: bool,
 }
 
-const COMMENTS: [&str; 7] = ["c", " SELECT x FROM y", "it's", "a; b", "\\", "-- nested", " 'open"];
+const COMMENTS: [&str; 8] = ["c", " SELECT x FROM y", "it's", "a; b", "\\", "-- nested", " 'open", ""];
 
 pub fn flip_case(t: &mut Tape, text: &str) -> String {
     match t.draw(4) {
